@@ -229,6 +229,15 @@ fn run(t: &Tape, want_desc: bool) -> CaseResult {
         } else {
             classes.push("state:before-ownership-transfer");
         }
+        // in a third of the states the owner has re-registered a denom, so the factory has pushed a
+        // decimals update into the pairs (their stored pair info was rewritten) before the cells are probed
+        if s.chance(1, 3) {
+            let d = base.natives[s.idx(base.natives.len())].clone();
+            let rec = base.exec(Step { sender: current_owner.clone(), call: Call::Factory { msg: FactoryExec::AddNativeTokenDecimals { denom: d, decimals: s.below(19) as u8 } }, funds: vec![] });
+            if rec.outcome.is_ok() {
+                classes.push("state:after-decimals-re-registration");
+            }
+        }
         // caller roles
         let mut roles: Vec<Role> = vec![
             Role { name: "current-owner", addr: current_owner.clone(), via_proxy: false },
@@ -292,12 +301,18 @@ fn run(t: &Tape, want_desc: bool) -> CaseResult {
                     classes.push(label(m, r.name, "authorised"));
                     continue;
                 }
-                if !twin_ok && !no_authority_exists {
-                    classes.push(label(m, r.name, "vacuous (authorised twin failed)"));
-                    continue;
-                }
                 let mut f = base.fork();
                 let rec = send(&mut f, &r.addr, r.via_proxy, &cell.contract, &cell.msg);
+                if !twin_ok && !no_authority_exists && !rec.outcome.is_ok() {
+                    // the rejection may have another cause than the caller: not counted as a judged cell,
+                    // but an unauthorised SUCCESS below is a violation whatever the twin did
+                    classes.push(label(m, r.name, "vacuous (authorised twin failed)"));
+                    if !rec.state_unchanged() {
+                        verdict = Verdict::Fail(format!("{} sent by {} was rejected but changed chain state", MESSAGES[m], r.name));
+                        break 'states;
+                    }
+                    continue;
+                }
                 judged += 1;
                 *cells_seen.entry((m, r.name)).or_default() += 1;
                 classes.push(label(m, r.name, "rejected"));
